@@ -14,4 +14,11 @@ PROPS = {
             "theorems are about Model/Counter.v; tied to the code by the tree-free hook accessors (leaf_digits / increment / lifetime)",
         ],
     },
+    "C01": {
+        "families": [{"name": "e2e"}],
+        "assumptions": [
+            "theorems are about the Gallina model (Model/Lmots, Lms, Derive, Hss, Codec), for every hash function H with |H(x)| = n",
+            "model == code by differential execution of keygen / sign / verify with the Gallina SHA-256 (SHAKE variants: implementation-only oracle)",
+        ],
+    },
 }
